@@ -267,3 +267,33 @@ def filter_vocab_pref(filters):
         if f is not None and is_sym(f):
             out.append(z3.Or(f == '', *[f == src for src, _ in REAL_FILTERS]))
     return out
+
+
+def backoff_axioms(formula):
+    """for every application backoff_nominal(min,max,n) / backoff_fuzz(id,n) with numeral arguments inside `formula`, the facts C04
+    establishes on the real NextDelayFor: nominal = min(max, min*1.1^n) up to 1e-12 relative + 2ns, 0 <= fuzz < 1s
+    (used when an oracle is evaluated on a concrete replay state, where the functions would otherwise be unconstrained)"""
+    from fractions import Fraction
+    out, seen = [], set()
+
+    def walk(e):
+        if not z3.is_app(e):
+            return
+        k = e.get_id()
+        if k in seen:
+            return
+        seen.add(k)
+        nm = e.decl().name()
+        if nm == 'backoff_nominal' and all(z3.is_int_value(a) for a in e.children()):
+            mn, mx, n = [a.as_long() for a in e.children()]
+            if 0 <= n < 2000:
+                ref = min(Fraction(mx), Fraction(mn) * Fraction(11, 10) ** n)
+                tol = ref / 10**12 + 2
+                out.append(z3.And(z3.ToReal(e) >= z3.RealVal(ref - tol), z3.ToReal(e) <= z3.RealVal(ref + tol)))
+        if nm == 'backoff_fuzz':
+            out.append(z3.And(e >= 0, e < 10**9))
+        for c in e.children():
+            walk(c)
+    if is_sym(formula):
+        walk(formula)
+    return out
